@@ -74,7 +74,8 @@ def rsStep (z : Zc) (ws : List String) : Zc × String :=
     let o : Option ZOp := match op.splitOn ":" with
       | ["set", i] => i.toNat?.map .setInstance
       | ["get"] => some .get | ["getfail"] => some .getFail | ["close"] => some .close
-      | ["lookup", b] => some (.lookup (b == "1"))
+      | ["lookup", "1"] => some (.lookup .ok) | ["lookup", "0"] => some (.lookup .fail)
+      | ["lookup", "c"] => some (.lookup .cancelled)
       | _ => none
     match o with
     | some o => let z' := zStep z o; (z', showZc z')
